@@ -662,6 +662,24 @@ func shapeRules(c *core.Ctx) {
 				}
 			}
 			if ok && !cut && len(trim) == 0 {
+				// strings.Cut(value, "\x00") / bytes.Cut(value, []byte{0}): its first result is what is returned
+				for _, b := range fn.Blocks {
+					for _, ins := range b.Instrs {
+						call, isC := ins.(*ssa.Call)
+						if !isC || !isCutAtNUL(call) {
+							continue
+						}
+						arg := call.Call.Args[0]
+						if cv, isCv := arg.(*ssa.Convert); isCv {
+							arg = cv.X
+						}
+						if arg == temp {
+							cut = true
+						}
+					}
+				}
+			}
+			if ok && !cut && len(trim) == 0 {
 				// hand-written search: for idx, c := range temp { if c == 0 { temp = temp[:idx]; break } }
 				n := 0
 				for _, b := range fn.Blocks {
@@ -862,6 +880,18 @@ func shapeRules(c *core.Ctx) {
 				}
 				if firstZeroCut(sl, temp) {
 					okRes = true
+				}
+			}
+			if ex, isE := v.(*ssa.Extract); isE && ex.Index == 0 && name == "ReadCStringN" {
+				// strings.Cut(string(octets), "\x00") / bytes.Cut(octets, []byte{0}): what precedes the first 0x00, or all of it
+				if call, isC := ex.Tuple.(*ssa.Call); isC && isCutAtNUL(call) {
+					arg := lastEv.Resolve(call.Call.Args[0])
+					if cv, isCv := arg.(*ssa.Convert); isCv {
+						arg = lastEv.Resolve(cv.X)
+					}
+					if arg == temp {
+						okRes = true
+					}
 				}
 			}
 			if !okRes {
@@ -1345,4 +1375,32 @@ func reaches(a, b *ssa.BasicBlock) bool {
 		return false
 	}
 	return dfs(a)
+}
+
+// isCutAtNUL: call is strings.Cut(x, "\x00") or bytes.Cut(x, []byte{0}).
+func isCutAtNUL(call *ssa.Call) bool {
+	cal := call.Call.StaticCallee()
+	if cal == nil || cal.Pkg == nil || cal.Name() != "Cut" || len(call.Call.Args) != 2 {
+		return false
+	}
+	switch cal.Pkg.Pkg.Path() {
+	case "strings":
+		k, ok := call.Call.Args[1].(*ssa.Const)
+		return ok && k.Value != nil && k.Value.Kind() == constant.String && constant.StringVal(k.Value) == "\x00"
+	case "bytes":
+		if sl, ok := call.Call.Args[1].(*ssa.Slice); ok {
+			if al, ok := sl.X.(*ssa.Alloc); ok {
+				vals := arrayStores(al)
+				if arr, isArr := al.Type().Underlying().(*types.Pointer).Elem().Underlying().(*types.Array); isArr && arr.Len() == 1 {
+					if len(vals) == 0 {
+						return true // [1]byte{} is one zero octet
+					}
+					if k, isK := constInt(vals[0]); isK && k == 0 {
+						return true
+					}
+				}
+			}
+		}
+	}
+	return false
 }
